@@ -21,7 +21,7 @@ CONSTANTS LenSet,        \* packet lengths in bytes
           RemSet,        \* bits left at frame start (8*len - tell), for the frames that start late in the packet
           LMSet, CSet,
           BandSel,       \* which of Bands below
-          LapSet,        \* coarse-energy values explored
+          LapSel,        \* which of LapSets below: the coarse-energy values explored (cfg files cannot hold negative numbers)
           Rich,          \* fuller alphabets for the multi-valued symbols
           NfSet, NchSet, \* speech layer: frames per packet, coded channels
           Gen,           \* print the leaves
@@ -34,6 +34,7 @@ FR == INSTANCE Framing
 \* (the decoder object accepts start 0 or 17 only)
 Bands == << <<0, 1>>, <<0, 2>>, <<17, 19>>, <<17, 21>>, <<0, 3>>, <<17, 18>>, <<0, 21>>, <<0, 13>> >>
 
+LapSets == << {0, 2}, {0, -1, 2}, {0, -1, 1, -3, 4} >>
 \* the values explored for the symbol the decoder asks for next
 Alpha(op3) ==
   CASE op3[1] = 1 -> {0, 1}
@@ -48,7 +49,7 @@ Alpha(op3) ==
            [] OTHER -> {0}                         \* stereo weights: values do not steer anything
     [] op3[1] = 3 -> IF Rich THEN 0..(op3[2] - 1) ELSE {0, op3[2] - 1}
     [] op3[1] = 4 -> {0, P2(op3[2]) - 1}
-    [] op3[1] = 5 -> LapSet
+    [] op3[1] = 5 -> LapSets[LapSel]
     [] OTHER -> {0}
 
 Root == [k |-> "root"]
@@ -131,15 +132,18 @@ InvLbrrLayout == st.k = "lay" => \A b \in 0..255 : LayoutAt(st.toc, b)
 (* speech layer, encoder side *)
 Bits3(nf) == {<<a, b, c>> : a \in {0, 1}, b \in (IF nf >= 2 THEN {0, 1} ELSE {0}), c \in (IF nf >= 3 THEN {0, 1} ELSE {0})}
 P5 == <<0, 0, 0, 0, 0>>
-WantGrid(nf, nch) ==
+\* three levels so that the workers share the enumeration: (nf, nch), then the VAD flags, then the rest
+WantGrid(nf, nch, v1, v2) ==
   {[vad |-> <<v1, v2>>, lbrr |-> <<l1, l2>>, lmo |-> lmo, mo |-> mo, pdom |-> pd,
     pred |-> <<P5, P5, P5>>, lpred |-> <<P5, P5, P5>>, seed |-> <<Z3, Z3>>, lseed |-> <<Z3, Z3>>] :
-     v1 \in Bits3(nf), v2 \in (IF nch = 2 THEN Bits3(nf) ELSE {Z3}),
      l1 \in Bits3(nf), l2 \in (IF nch = 2 THEN Bits3(nf) ELSE {Z3}),
      lmo \in (IF nch = 2 THEN (IF Rich THEN Bits3(nf) ELSE {Z3, <<1, 1, 1>>}) ELSE {Z3}), mo \in (IF nch = 2 THEN Bits3(nf) ELSE {Z3}), pd \in {0, 1}}
 InitE == st = Root
 NextE == \/ st.k = "root" /\ \E nf \in NfSet, nch \in NchSet : st' = [k |-> "grid", nf |-> nf, nch |-> nch]
-         \/ st.k = "grid" /\ \E w \in WantGrid(st.nf, st.nch) : st' = [k |-> "senc", rq |-> [nf |-> st.nf, nch |-> st.nch, vals |-> <<>>, w |-> w]]
+         \/ st.k = "grid" /\ \E v1 \in Bits3(st.nf), v2 \in (IF st.nch = 2 THEN Bits3(st.nf) ELSE {Z3}) :
+               st' = [k |-> "grid2", nf |-> st.nf, nch |-> st.nch, v1 |-> v1, v2 |-> v2]
+         \/ st.k = "grid2" /\ \E w \in WantGrid(st.nf, st.nch, st.v1, st.v2) :
+               st' = [k |-> "senc", rq |-> [nf |-> st.nf, nch |-> st.nch, vals |-> <<>>, w |-> w]]
 SpecE == InitE /\ [][NextE]_st
 InvSilkMirror == st.k = "senc" => SilkMirrorOK(st.rq)
 =============================================================================
